@@ -30,6 +30,17 @@ fn viol(report: &Report, identity: String, detail: String) {
     report.violation(Violation { identity, detail, case: json!({"kind": "none"}) });
 }
 
+/// a model query on ANY symbol value must return (no probability / a probability), never panic
+fn mq<T>(report: &Report, what: &str, sym: &dyn std::fmt::Debug, f: impl FnOnce() -> Option<T>) -> Option<Option<T>> {
+    match crate::isolate::guarded(f) {
+        crate::isolate::Outcome::Value(v) => Some(v),
+        crate::isolate::Outcome::CleanPanic { msg, loc } | crate::isolate::Outcome::OverflowPanic { msg, loc } => {
+            viol(report, format!("{what} | model query panics instead of rejecting the symbol"), format!("symbol {:?}: '{msg}' at {loc}", sym));
+            None
+        }
+    }
+}
+
 fn alias_candidates(inside: &[u64], first_outside: u64) -> Vec<u64> {
     let mut v: Vec<u64> = (first_outside..first_outside + 70).collect();
     for &s in inside.iter().take(4).chain(inside.iter().rev().take(2)) {
@@ -56,13 +67,13 @@ macro_rules! model_outside_usize {
         let inside: Vec<u64> = (0..$size as u64).collect();
         for &s in &inside {
             $n += 1;
-            if EncoderModel::<$P>::left_cumulative_and_probability(&$m, s as usize).is_none() {
+            if let Some(None) = mq($report, $what, &s, || EncoderModel::<$P>::left_cumulative_and_probability(&$m, s as usize)) {
                 viol($report, format!("{} | in-support symbol rejected", $what), format!("symbol {s} of 0..{}", $size));
             }
         }
         for s in alias_candidates(&inside, $size as u64) {
             $n += 1;
-            if let Some((c, p)) = EncoderModel::<$P>::left_cumulative_and_probability(&$m, s as usize) {
+            if let Some(Some((c, p))) = mq($report, $what, &s, || EncoderModel::<$P>::left_cumulative_and_probability(&$m, s as usize)) {
                 viol($report, format!("{} | symbol outside the support gets a probability (aliases an in-support symbol)", $what),
                     format!("support 0..{}: symbol {s} reported as (cumulative {c}, probability {p})", $size));
             }
@@ -107,8 +118,10 @@ fn models_part(report: &Report) {
     for s in alias_candidates(&[5, 7, 9], 0) {
         n += 1;
         let inside = labels.contains(&s);
-        if m.left_cumulative_and_probability(s).is_some() != inside {
-            viol(report, "NonContiguousCategoricalEncoderModel | membership of a symbol misjudged".into(), format!("labels {:?}: symbol {s}", labels));
+        if let Some(r) = mq(report, "NonContiguousCategoricalEncoderModel", &s, || m.left_cumulative_and_probability(s)) {
+            if r.is_some() != inside {
+                viol(report, "NonContiguousCategoricalEncoderModel | membership of a symbol misjudged".into(), format!("labels {:?}: symbol {s}", labels));
+            }
         }
     }
     // quantised distributions over signed / narrow / wide symbol types
@@ -123,15 +136,17 @@ fn models_part(report: &Report) {
             cands.extend([<$Sym>::MIN as i128, <$Sym>::MAX as i128, <$Sym>::MIN as i128 + 1, <$Sym>::MAX as i128 - 1]);
             for s in lo..=hi {
                 n += 1;
-                if m.left_cumulative_and_probability(s as $Sym).is_none() {
-                    viol(report, format!("LeakilyQuantizedDistribution<{},{},{}> | in-support symbol rejected", stringify!($Sym), stringify!($Pr), $P), format!("symbol {s}"));
+                let name = format!("LeakilyQuantizedDistribution<{},{},{}>", stringify!($Sym), stringify!($Pr), $P);
+                if let Some(None) = mq(report, &name, &s, || m.left_cumulative_and_probability(s as $Sym)) {
+                    viol(report, format!("{name} | in-support symbol rejected"), format!("symbol {s}"));
                 }
             }
             for s in cands {
                 if s < <$Sym>::MIN as i128 || s > <$Sym>::MAX as i128 || (s >= lo && s <= hi) { continue; }
                 n += 1;
-                if m.left_cumulative_and_probability(s as $Sym).is_some() {
-                    viol(report, format!("LeakilyQuantizedDistribution<{},{},{}> | symbol outside the support gets a probability", stringify!($Sym), stringify!($Pr), $P),
+                let name = format!("LeakilyQuantizedDistribution<{},{},{}>", stringify!($Sym), stringify!($Pr), $P);
+                if let Some(Some(_)) = mq(report, &name, &s, || m.left_cumulative_and_probability(s as $Sym)) {
+                    viol(report, format!("{name} | symbol outside the support gets a probability"),
                         format!("support {lo}..={hi}: symbol {s}"));
                 }
             }
